@@ -8,7 +8,7 @@ from typing import Dict, List, Optional, Set, Tuple
 from ..core import astutil as A
 from ..core.index import AnalysisError, FuncInfo
 from ..selftest import M
-from .common import may_conds, is_early_exit_guard, T, attr_stores, calls_named, conds, every_origin, facts, need, subscript_stores, where
+from .common import ext_name, may_conds, is_early_exit_guard, T, attr_stores, calls_named, conds, every_origin, facts, need, subscript_stores, where
 from . import c01, c02
 
 TR = "ufo2ft.filters.transformations"
@@ -117,7 +117,8 @@ def r152(prog, chk):
     ix = prog.ix
     mi = ix.get_module(DT)
     e = mi.constants.get("IDENTITY_2x2")
-    ok = e is not None and T(e) == "Identity[:4]" and mi.imports.get("Identity") == "fontTools.misc.transform.Identity"
+    ok = e is not None and isinstance(e, ast.Subscript) and isinstance(e.slice, ast.Slice) and e.slice.lower is None and A.is_const(e.slice.upper, 4) and e.slice.step is None \
+        and ext_name(prog, mi, e.value) == "fontTools.misc.transform.Identity"
     chk.ob("R15.2", "IDENTITY_2x2 = fontTools Identity[:4]", ok, mi.relpath, detail=T(e) if e is not None else "", message="IDENTITY_2x2 is no longer the 2x2 part of fontTools' identity transform")
     it = ix.get_func(f"{DT}:_isTransformed")
     r = A.returns_of(it.node)
@@ -363,7 +364,7 @@ def r155(prog, chk):
                 and s.targets[0].id == s.value.func.value.id and s.value.func.attr in ("translate", "scale", "skew", "rotate", "transform"):
             seq.append(s.value.func.attr)
     ok = seq == ["translate", "translate", "scale", "skew", "translate"]
-    m_init = [s for s in A.stmts_of(sc.node) if isinstance(s, ast.Assign) and T(s.value) == "Identity"]
+    m_init = [s for s in A.stmts_of(sc.node) if isinstance(s, ast.Assign) and isinstance(s.value, (ast.Name, ast.Attribute)) and ext_name(prog, sc, s.value) == "fontTools.misc.transform.Identity"]
     st = [(s, t, v) for s, t, v in attr_stores(sc, "matrix")]
     ok = ok and len(m_init) == 1 and len(st) == 1 and T(st[0][2]) == m_init[0].targets[0].id
     chk.ob("R15.5", f"{sc.short}|matrix = offset, then (to origin, scale, slant, back) built with the Transform algebra from Identity", ok, where(sc), detail=" -> ".join(seq),
